@@ -48,7 +48,11 @@ def relevant_props(item, trace):
         if op == "head":
             return {"C05", "C06"}
         if op == "append":
-            return {"C07", "C05", "C01"}
+            ps = {"C07", "C05", "C01"}
+            if any(x["op"].get("op") == "import" and isinstance(x["op"].get("frame"), dict)
+                   and x["op"]["frame"].get("id") == e["op"].get("ctx") for x in trace[: item["i"]]):
+                ps.add("C20")      # usability of a context that was registered by an import
+            return ps
         if op == "import":
             return {"C20", "C05"}
         if op == "remove":
@@ -305,8 +309,9 @@ def run(prop, tier, seed, replay=None):
             rc = 1
     if rc == 0 and (internal_only or theorem_broken):
         if internal_only:
-            broken = "correspondence:store/%s after %s" % ("+".join(it.get("comps", [])), it.get("op"))
-            payload_case, tr, fnd = small, rr, findings_for(prop, rr)[1][:5]
+            r0, it0 = internal_only[0]
+            broken = "correspondence:store/%s after %s" % ("+".join(it0.get("comps", [])), it0.get("op"))
+            payload_case, tr, fnd = r0["case"], r0, findings_for(prop, r0)[1][:5]
         else:
             broken = "theorem:" + theorem_broken[0]
             payload_case, tr, fnd = None, None, aud["failures"][:3]
